@@ -46,3 +46,63 @@ package mask
 //@     set rc := r
 //@   ensures m.mode == modeMask ==> len(dst) <= len(result) && len(result) - len(dst) <= end - begin
 //@   loop 1 invariant 0 <= i && i <= n && len(dst) == old(len(dst)) + i && n <= end - begin && (m.MaxCount > 0 ==> n <= m.MaxCount)
+
+// addFieldsToTree (C17: "every ignored or non-processed field ... unchanged" rests
+// on the per-field mask lists): for every configured path the leaf callback runs
+// exactly once, at the last element of that path - whether the nodes on the way
+// already existed (another list named the same path) or were created now.
+
+//@ func addFieldsToTree
+//@   ghost ncb int = 0
+//@   requires forall k :: 0 <= k && k < len(fieldPaths) ==> len(fieldPaths[k]) >= 1
+//@   ensures ncb == len(fieldPaths)
+//@   loop 1 invariant ncb == rangeindex + 1 && rangeindex < len(fieldPaths)
+//@   loop 2 invariant rangeindex < len(fieldPaths) && rangeindex#2 < len(fieldPath) && len(fieldPath) >= 1 && ncb == rangeindex + ite(rangeindex#2 == len(fieldPath) - 1, 1, 0)
+//@   callee cb(n)
+//@     requires j == len(fieldPath) - 1 && ncb == rangeindex
+//@     preserves []string
+//@     set ncb := ncb + 1
+//@   callee newFieldMasksNode() (r)
+//@     pure
+//@     ensures r != nil && fresh(r)
+
+// traverseTree, array case: the field-masks node handed down for element i is the
+// node listed for index i if there is one, otherwise the empty node - decided per
+// element, never inherited from the previous element (and the current node itself
+// when the lists say nothing about this subtree).
+
+//@ func (*Plugin).traverseTree
+//@   option allow-exit yes
+//@   ghost ghas bool = false
+//@   ghost gv int = 0
+//@   loop 1 invariant !shouldCheckFmNode ==> nextFmNode == curFmNode
+//@   assert at "if p.traverseTree(event, nextNode, nextFmNode) {" shouldCheckFmNode && !ghas ==> nextFmNode == p.emptyFMNode
+//@   assert at "if p.traverseTree(event, nextNode, nextFmNode) {" shouldCheckFmNode && ghas ==> ref(nextFmNode) == gv
+//@   assert at "if p.traverseTree(event, nextNode, nextFmNode) {" !shouldCheckFmNode ==> nextFmNode == curFmNode
+//@   callee maplookup:children(k) (v, ok)
+//@     set ghas := ok
+//@     set gv := ref(v)
+//@   callee traverseTree(e, n, fm) (r)
+//@     preserves Plugin, fieldMasksNode
+//@   callee processMask(e, n, fm) (r)
+//@     preserves Plugin, fieldMasksNode
+//@   callee IsField() (r)
+//@     pure
+//@   callee IsArray() (r)
+//@     pure
+//@   callee IsObject() (r)
+//@     pure
+//@   callee IsString() (r)
+//@     pure
+//@   callee IsNumber() (r)
+//@     pure
+//@   callee AsString() (r)
+//@     pure
+//@   callee AsFieldValue() (r)
+//@     pure
+//@   callee AsArray() (r)
+//@     pure
+//@   callee AsFields() (r)
+//@     pure
+//@   callee Itoa(i) (r)
+//@     pure
